@@ -433,6 +433,56 @@ def e10b(ctx):
                               f"cannot be read back")
             else:
                 ctx.proved("E10b", f.file, "SequenceFormatter.print_SequenceNode", i.test, "sub-edits chosen by structure", f"`{norm(i.test, 80)}`")
+    # the same decision written without an `if` statement, or moved away: the value the item loop runs over comes from
+    # `X.edits()` under a conditional expression, from a method of the edit that chooses between `self.edits()` and matches, or
+    # after a helper has decided which edit "applies" - wherever it sits, a cost test on the way is the same defect
+    COST_ = ("has_non_zero_cost", "bounds", "is_complete", "cost")
+    SEQ_EDIT = m.need_class("SequenceEdit")
+
+    def helper_of(c):
+        """the project function a call refers to: a module-level function of this module, or a method of the sequence-edit family"""
+        if isinstance(c.func, ast.Name):
+            return m.functions.get(f"{f.module}.{c.func.id}")
+        if isinstance(c.func, ast.Attribute) and c.func.attr not in ("edits", "print", "append", "write", "newline"):
+            for k_ in m.subclasses(SEQ_EDIT):
+                h_ = m.method(k_, c.func.attr)
+                if h_ is not None and h_.cls and m.is_subclass(h_.cls, SEQ_EDIT):
+                    return h_
+        return None
+
+    def cost_calls(node_):
+        return [c for c in ast.walk(node_) if isinstance(c, ast.Call) and isinstance(c.func, ast.Attribute) and c.func.attr in COST_]
+
+    def provides_edits(h_):
+        return any(isinstance(c, ast.Call) and isinstance(c.func, ast.Attribute) and c.func.attr == "edits" for c in ast.walk(h_.node))
+    for st in walk_no_nested(f.node):
+        if not (isinstance(st, (ast.Assign, ast.AnnAssign)) and st.value is not None):
+            continue
+        direct = [c for c in ast.walk(st.value) if isinstance(c, ast.Call) and isinstance(c.func, ast.Attribute) and c.func.attr == "edits"]
+        via = [(c, helper_of(c)) for c in ast.walk(st.value) if isinstance(c, ast.Call) and not (isinstance(c.func, ast.Attribute) and c.func.attr == "edits")]
+        via = [(c, h_) for c, h_ in via if h_ is not None and provides_edits(h_)]
+        if not direct and not via:
+            continue
+        if not (isinstance(parent(st), ast.If) and direct and not isinstance(st.value, ast.IfExp)):
+            n += 1          # (the plain if/else form was counted above)
+        bad = []
+        tests = [t for t, _ in flatten_conditions(dominating_conditions(st))] + [x.test for x in ast.walk(st.value) if isinstance(x, ast.IfExp)]
+        for t in tests:
+            bad += cost_calls(t)
+            # a name in the test that a helper decided (`applied = _applied_sequence_edit(node)`)
+            for nm in [x.id for x in ast.walk(t) if isinstance(x, ast.Name)]:
+                for a_ in walk_no_nested(f.node):
+                    if isinstance(a_, ast.Assign) and len(a_.targets) == 1 and isinstance(a_.targets[0], ast.Name) and a_.targets[0].id == nm \
+                            and isinstance(a_.value, ast.Call) and helper_of(a_.value) is not None:
+                        bad += cost_calls(helper_of(a_.value).node)
+        for c, h_ in via:
+            bad += cost_calls(h_.node)
+        if bad:
+            ctx.violation("E10b", f.file, "SequenceFormatter.print_SequenceNode", st, "sub-edits chosen by structure",
+                          f"what `{norm(st, 60)}` renders is decided by `{norm(bad[0], 40)}`: an edit of cost 0 is not 'no change' ([1, 2, null] vs "
+                          f"[1, 2] costs 0), so such a list is printed as unchanged and the second document cannot be read back")
+        elif not isinstance(parent(st), ast.If):
+            ctx.proved("E10b", f.file, "SequenceFormatter.print_SequenceNode", st, "sub-edits chosen by structure", f"`{norm(st, 80)}`: no cost test on the way")
     ctx.floor("E10b", n, 1, "sub-edit branches in print_SequenceNode")
     # the same for an edit handed to GraphtageFormatter.print explicitly (the items of a sequence arrive that way): it is printed
     # as an edit whenever edits are wanted - a zero-cost Insert or Remove is still an insertion or a removal
